@@ -24,6 +24,8 @@ type Env struct {
 	loop  *loopInfo
 	bound map[string]*Val
 	ghost bool // lemma mode: calls to contracted functions instantiate their contracts
+	renaming bool // resolving a recorded binding (no second indirection)
+	memoFresh *memoInfo // ensures of a memoising callee: fresh(x) reads 'new, or handed out before for the same arguments and state'
 	inLet bool // inside a spec function body: arguments are SMT let-bound names, nothing may be asserted about them
 	depth int
 }
@@ -138,6 +140,11 @@ func (env *Env) lookupName(name string) (*Val, error) {
 			x := li.phiVal[li.rangeIdx]
 			return &Val{T: "(bvadd " + x.T + " #x0000000000000001)", Typ: tInt, ConstLen: -1}, nil
 		}
+		if name == "$k" && li.idxPhi != nil {
+			if w, _, ok := intInfo(li.idxPhi.Type()); ok && w == 64 {
+				return &Val{T: li.phiVal[li.idxPhi].T, Typ: tInt, ConstLen: -1}, nil
+			}
+		}
 		for phi, v := range li.phiVal {
 			if phi.Comment == name {
 				return v, nil
@@ -244,6 +251,18 @@ func (f *Frame) localByName(name string, env *Env) *Val {
 				cs = []cand{c}
 				break
 			}
+		}
+	}
+	if len(cs) == 0 && !env.renaming {
+		// the name does not exist (any more): the variable recorded for it, under its current name
+		if cur := f.enc.prog.renamedLocal(f.fn, name); cur != "" && cur != name {
+			env.renaming = true
+			v := f.localByName(cur, env)
+			env.renaming = false
+			if v != nil {
+				f.enc.renamed[name+" -> "+cur+" in "+shortFunc(f.fn)] = true
+			}
+			return v
 		}
 	}
 	if len(cs) != 1 {
@@ -1154,7 +1173,27 @@ func (env *Env) evalBuiltinCall(name string, argsE []*Expr) (*Val, error, bool) 
 		if _, ok := v.Typ.Underlying().(*types.Slice); ok {
 			ref = "(s.arr " + v.T + ")"
 		}
+		if mi := env.memoFresh; mi != nil {
+			// handed out before by the same function for the same arguments in the same state
+			same := []string{sel(e.memoHeap(env.old, "ponce$"+mi.key), ref),
+				eq(sel(e.heapGet(env.old, "pbt$"+mi.key, "(Array Ref "+sortTok+")"), ref), mi.tok)}
+			for j, a := range mi.args {
+				same = append(same, eq(sel(e.heapGet(env.old, fmt.Sprintf("pba$%s$%d", mi.key, j), "(Array Ref "+c.sortOf(a.Typ)+")"), ref), a.T))
+			}
+			return boolVal(and(not(eq(ref, "nil")), or(not(sel(e.allocArr(env.old), ref)), and(same...)))), nil, true
+		}
 		return boolVal(and(not(eq(ref, "nil")), not(sel(e.allocArr(env.old), ref)))), nil, true
+	case "built":
+		// built(x): x was made by an ordinary allocation of this call (not handed out by a pure function)
+		v, err := arg(0)
+		if err != nil {
+			return nil, err, true
+		}
+		ref := v.T
+		if _, ok := v.Typ.Underlying().(*types.Slice); ok {
+			ref = "(s.arr " + v.T + ")"
+		}
+		return boolVal(and(not(eq(ref, "nil")), not(sel(e.allocArr(env.old), ref)), not(c.memoBorn(ref)))), nil, true
 	case "sameArray":
 		a, err := arg(0)
 		if err != nil {
@@ -1299,4 +1338,10 @@ func (env *Env) evalBuiltinCall(name string, argsE []*Expr) (*Val, error, bool) 
 		return &Val{T: env.st.tok, Typ: nil, ConstLen: -1}, nil, true
 	}
 	return nil, nil, false
+}
+
+type memoInfo struct {
+	key  string
+	args []*Val
+	tok  string
 }
